@@ -110,29 +110,37 @@ func direct(c *Ctx, mode, req string, items []RpItem, r *RpResult) {
 		term      []byte
 		cb        bool
 		short0801 bool
+		opt       string // "1003" / "0801": a frame of a recorded finding's class; the code's and the required behaviour are both accepted
+		rdPos     int    // index of the request's read callback among the TerminalEventer read callbacks (-1: none)
 	}
 	var wf []wantFrame
 	var wantRd []string
 	var join *RpFrame
 	var absorbed []string
+	eCount := 0
 	for _, it := range items {
 		if it.Kind == 'C' {
 			if join != nil {
-				wf = append(wf, wantFrame{rid: it.Cmd, ver: join.Ver, bcd: join.BCD, body: it.Body, bodyKnown: true, what: fmt.Sprintf("command %04x", it.Cmd)})
+				wf = append(wf, wantFrame{rid: it.Cmd, ver: join.Ver, bcd: join.BCD, body: it.Body, bodyKnown: true, what: fmt.Sprintf("command %04x", it.Cmd), rdPos: -1})
 			}
 			continue
 		}
 		if it.Kind == 'Q' && join != nil {
-			// a 0x9003 left outstanding, then the terminal's 0x1003: the code hands it to the waiting caller and
-			// writes nothing (known finding C06/1003-absorbed-no-reply); read callbacks still run
-			wf = append(wf, wantFrame{rid: it.Cmd, ver: join.Ver, bcd: join.BCD, body: it.Body, bodyKnown: true, what: "query 9003"})
-			f := it.Deliv[0].F
+			// a 0x9003 left outstanding, then the terminal's complete 0x1003.  The property requires the 0x8001 for
+			// it; the code hands the message to the waiting caller and writes nothing (known finding
+			// C06/1003-absorbed-no-reply).  Both are accepted on exactly this slot: the reply is WANTED (optional
+			// slot), its absence is reported under the finding's signature, its presence raises nothing.
+			wf = append(wf, wantFrame{rid: it.Cmd, ver: join.Ver, bcd: join.BCD, body: it.Body, bodyKnown: true, what: "query 9003", rdPos: -1})
+			d := it.Deliv[0]
+			f := d.F
 			tag := fmt.Sprintf("%04x.%d", f.ID, f.Serial)
 			if mode == "B" {
 				wantRd = append(wantRd, "H"+tag)
 			}
 			wantRd = append(wantRd, "E"+tag)
-			absorbed = append(absorbed, tag)
+			eCount++
+			wf = append(wf, wantFrame{rid: 0x8001, ver: f.Ver, bcd: f.BCD, body: []byte{}, bodyKnown: true, what: "reply to " + tag + " (0x9003 outstanding)",
+				term: d.Data, cb: true, opt: "1003", rdPos: eCount - 1})
 			continue
 		}
 		for _, d := range it.Deliv {
@@ -143,7 +151,7 @@ func direct(c *Ctx, mode, req string, items []RpItem, r *RpResult) {
 				continue
 			}
 			if f.ID == 0x8003 {
-				wf = append(wf, wantFrame{rid: 0x8003, ver: f.Ver, bcd: f.BCD, body: f.Body, bodyKnown: true, what: "re-request echo", term: d.Data, cb: d.HasComplete()})
+				wf = append(wf, wantFrame{rid: 0x8003, ver: f.Ver, bcd: f.BCD, body: f.Body, bodyKnown: true, what: "re-request echo", term: d.Data, cb: d.HasComplete(), rdPos: -1})
 				continue
 			}
 			if join == nil {
@@ -155,17 +163,53 @@ func direct(c *Ctx, mode, req string, items []RpItem, r *RpResult) {
 					wantRd = append(wantRd, "H"+tag)
 				}
 				wantRd = append(wantRd, "E"+tag)
+				eCount++
 			}
 			if ans, rid, body, known := expect(d); ans {
-				wf = append(wf, wantFrame{rid: rid, ver: f.Ver, bcd: f.BCD, body: body, bodyKnown: known, what: "reply to " + tag, term: d.Data, cb: true,
-					short0801: f.ID == 0x0801 && len(f.Body) < 36})
+				w := wantFrame{rid: rid, ver: f.Ver, bcd: f.BCD, body: body, bodyKnown: known, what: "reply to " + tag, term: d.Data, cb: true,
+					short0801: f.ID == 0x0801 && len(f.Body) < 36, rdPos: eCount - 1}
+				if w.short0801 {
+					w.opt = "0801" // a repaired ReplyBody may send nothing for it or the right id: neither alarms
+				}
+				wf = append(wf, w)
 			}
 		}
 	}
 	// frames: count, order, type, addressing, numbering, body
-	if len(absorbed) > 0 && len(r.Frames) == len(wf) {
+	// align the frames read from the socket with the required frames; an optional slot (a recorded finding's
+	// class) is taken as present only if the next frame can be its reply
+	{
+		var al []wantFrame
+		fi := 0
+		for wi, w := range wf {
+			if w.opt != "" {
+				present := false
+				need := 0 // frames the remaining non-optional slots need
+				for _, x := range wf[wi+1:] {
+					if x.opt == "" {
+						need++
+					}
+				}
+				if fi < len(r.Frames) && len(r.Frames)-fi > need {
+					if f, ok := RpDecode(r.Frames[fi]); ok && f.Ver == w.ver && bytes.Equal(f.BCD, w.bcd) {
+						present = (w.opt == "1003" && f.ID == 0x8001 && len(f.Body) == 0) || (w.opt == "0801" && f.ID == 0x8800)
+					}
+				}
+				if !present {
+					if w.opt == "1003" {
+						absorbed = append(absorbed, w.what)
+					}
+					continue
+				}
+			}
+			al = append(al, w)
+			fi++
+		}
+		wf = al
+	}
+	if len(absorbed) > 0 {
 		viol("1003-absorbed-no-reply", "a complete 0x1003 (HasReply true) that arrives while a 0x9003 query is outstanding is handed to the waiting SendActiveMessage caller and gets no 0x8001",
-			fmt.Sprintf("%d frames, none for %s", len(r.Frames), strings.Join(absorbed, ",")), "exactly one reply for every complete message of a reply-bearing type")
+			fmt.Sprintf("%d frames, none for: %s", len(r.Frames), strings.Join(absorbed, ",")), "exactly one reply for every complete message of a reply-bearing type")
 	}
 	if len(r.Frames) != len(wf) {
 		viol("count", "number of frames written differs from the number of reply-bearing complete messages (+ echoes, commands)",
@@ -201,6 +245,22 @@ func direct(c *Ctx, mode, req string, items []RpItem, r *RpResult) {
 		if w.bodyKnown && !bytes.Equal(f.Body, w.body) {
 			viol("body", fmt.Sprintf("frame %d (%s): reply body differs from the prescribed one", k, w.what), Hx(f.Body), Hx(w.body))
 			break
+		}
+	}
+	// read before write, on the socket: when the read callback of a request ran, its reply had not been read back yet
+	{
+		var ev []RpEv
+		for _, e := range r.Reader {
+			if e.Kind == "E" {
+				ev = append(ev, e)
+			}
+		}
+		for k := 0; k < len(r.Frames) && k < len(wf); k++ {
+			if p := wf[k].rdPos; p >= 0 && p < len(ev) && ev[p].FramesBefore > k {
+				viol("read-before-write", fmt.Sprintf("frame %d (%s) had already been read from the socket when the request's read callback ran", k, wf[k].what),
+					fmt.Sprintf("%d frames read before the callback", ev[p].FramesBefore), fmt.Sprintf("at most %d", k))
+				break
+			}
 		}
 	}
 	// read callbacks: exactly once per handled message / unsupported message, in order
